@@ -303,4 +303,32 @@ theorem attributes_nearest_bytes_partial (fmt : R → List UInt8) (env : Env R) 
   simp only [this, Out.bind_ok]
   exact ⟨media_box_nearest _, crop_box_nearest _, resources_nearest _⟩
 
+/-! ### non-vacuity at byte level: a document is written, its bytes are opened, its pages are found -/
+
+/-- root 3 (media box 11, resources 5) with leaf 1 (crop box 12) and node 2 with leaf 4 (media box 13): objects numbered
+    against the document order -/
+def exT : PTree :=
+  .node 3 ⟨some 11, none, some 5⟩ [.leaf 1 ⟨none, some 12, none⟩, .node 2 ⟨none, none, none⟩ [.leaf 4 ⟨some 13, none, none⟩]]
+def exEnv : Env (List UInt8) :=
+  { parseReal := fun t => some t, resolveLen := fun _ _ => .err, allowMissingEndobj := false, decrypt := none, fileOffset := 0 }
+def exDec : Dict (List UInt8) → List UInt8 → Out (List UInt8) :=
+  fun d raw => match dictGet d kFilter with | none => .ok raw | some _ => .err
+
+/-- `ok n` ↦ `n + 1`, anything else ↦ 0 -/
+def code : Out Nat → Nat
+  | .ok n => n + 1
+  | _ => 0
+
+example : (idsOf exT).Nodup ∧ (∀ x ∈ idsOf exT, 1 ≤ x ∧ x ≤ 4) ∧ markersOK exT = true ∧ height exT ≤ 16 := by decide
+/-- the model run on the written bytes (kernel evaluation of writer, open path, resolver, parser, page walk) -/
+example : (match writeDoc (R := List UInt8) id exT 4 with
+    | .ok bytes =>
+      (decide (bytes.length ≤ fileMax), code (numPagesB nodeOf exEnv (3 * bytes.length + 64) exDec 2 3 17 bytes),
+        (List.range 3).map fun i =>
+          match getPageB nodeOf exEnv (3 * bytes.length + 64) exDec 2 3 17 bytes i with
+          | .ok l => [l.id, code (mediaBox l), code (cropBox l), code (resources l)]
+          | _ => [])
+    | _ => (false, 0, [])) =
+    (true, 3, [[1, 12, 13, 6], [4, 14, 14, 6], []]) := by decide +kernel
+
 end C07
